@@ -498,4 +498,51 @@ def mon_c06(cfg, steps):
     return out
 
 
-MONITORS = {"C04": mon_c04, "C15": mon_c15, "C03": mon_c03, "C08": mon_c08, "C10": mon_c10, "C11": mon_c11, "C12": mon_c12, "C05": mon_c05, "C06": mon_c06}
+# ---------------- C17 ----------------
+def mon_c17(cfg, steps):
+    """each query result against an independent computation from the store dump (typed range over the maps)"""
+    out = []
+    for s in steps:
+        t = s.optoks
+        if t[0] != "query" or s.res != "ok" or s.pre is None:
+            continue
+        st = s.pre; kind = t[1]
+        def lim(x):
+            return 2 ** 32 - 1 if x == "-" else int(x)
+        if kind == "batches":
+            sa = None if t[2] == "-" else int(t[2]); l = lim(t[3]); stt = None if t[4] == "-" else t[4]
+            exp = [k for k in sorted(st["batches"]) if (sa is None or k > sa) and (stt is None or st["batches"][k]["status"] == stt)][:l]
+            got = [int(q[1]) for q in s.q if q[0] == "q.batch"]
+            if got != exp:
+                out.append({"step": s.idx, "what": "Batches(start_after=%s, limit=%s, status=%s) returned ids %r, the matching batches are %r" % (t[2], t[3], t[4], got, exp)})
+            for q in s.q:
+                b = st["batches"].get(int(q[1]))
+                if b and (int(q[2]) != b["total"] or q[7] != b["status"] or int(q[3]) != (b["expected"] or 0) or int(q[4]) != (b["received"] or 0)):
+                    out.append({"step": s.idx, "what": "Batches returned stale fields for batch %s" % q[1]})
+        elif kind == "byids":
+            ids = [int(x) for x in t[2][1:-1].split(",") if x]
+            exp = [k for k in ids if k in st["batches"]]
+            got = [int(q[1]) for q in s.q if q[0] == "q.batch"]
+            if got != exp:
+                out.append({"step": s.idx, "what": "BatchesByIds(%r) returned %r, existing requested batches are %r" % (ids, got, exp)})
+        elif kind == "requests":
+            u = unhex(t[2]).decode("utf-8", "replace")
+            exp = sorted((b, a) for (b, uu, a) in st["reqs"] if uu == u)
+            got = [(int(q[1]), int(q[3])) for q in s.q if q[0] == "q.req"]
+            if got != exp:
+                out.append({"step": s.idx, "what": "UnstakeRequests(%s) returned %r, the open requests are %r" % (u, got, exp)})
+        elif kind == "ibcq":
+            sa = None if t[2] == "-" else int(t[2]); l = lim(t[3])
+            exp = [k for k in sorted(st["pkts"]) if sa is None or k > sa][:l]
+            got = [int(q[1]) for q in s.q if q[0] == "q.pkt"]
+            if got != exp:
+                out.append({"step": s.idx, "what": "IbcQueue(start_after=%s, limit=%s) returned %r, expected %r" % (t[2], t[3], got, exp)})
+        elif kind in ("batch", "pending"):
+            k = int(t[2]) if kind == "batch" else st["pending"]
+            got = [int(q[1]) for q in s.q if q[0] == "q.batch"]
+            if got != [k]:
+                out.append({"step": s.idx, "what": "%s query returned %r" % (kind, got)})
+    return out
+
+
+MONITORS = {"C04": mon_c04, "C15": mon_c15, "C03": mon_c03, "C08": mon_c08, "C10": mon_c10, "C11": mon_c11, "C12": mon_c12, "C05": mon_c05, "C06": mon_c06, "C17": mon_c17}
